@@ -46,6 +46,12 @@ func (st *Struct) Caps() schema.Caps {
 	c.ConvSlices = !st.useNode
 	c.Embeds = st.useNode
 	c.NoPlainLeaves = st.plain
+	// (map-backed lists keep string/int keys: the generator gives other key types to slice lists only)
+	if st.useNode && !st.plain {
+		c.KeyTypes = []string{"int64", "uint8", "enum", "decimal64"}
+	} else {
+		c.KeyTypes = []string{"int64", "uint8", "decimal64"}
+	}
 	return c
 }
 
